@@ -91,7 +91,12 @@ let gen_closed ~(tier : string) ~(seed : int) ~(emit : Sexp.t -> unit) : unit =
     (TBin (OSum, h1, h0), TBin (OSum, h0, TNeg h1));
     (TBin (OSum, h1, h0), TBin (OSum, h0, TBin (OProd, h1, TLit (z_of_int 2))));
     (TApp (TApp (TBool, h1), h0), TApp (TApp (TBool, h0), TPi (false, h1, TInt)));
-    (TIf (TBool, h1, h0), TIf (TBool, h0, TLam (false, TInt, THole (S O, S O)))) ];
+    (TIf (TBool, h1, h0), TIf (TBool, h0, TLam (false, TInt, THole (S O, S O))));
+    (* recorded finding D19: ?0 := (A : type) -> ?1 with ?1 LOCAL to the solution (under its binder, shift 0); read one
+       binder further in, the raised solution still says ?1[0], so ?1 is solved there by the variable of the
+       enclosing function, which does not exist where ?0 was written *)
+    (TApp (h0, TLam (false, TInt, THole (O, S O))),
+     TApp (TPi (false, TType, THole (S O, O)), TLam (false, TInt, TPi (false, TType, TVar (S O))))) ];
   (* a hole written outside some binders, met underneath them, against a term with binders of its own under
      which sits a second, still unsolved hole written in a scope between the two: lowering the term to the first
      hole's scope must fail exactly when the second hole's scope is lost (every combination of depths, both
@@ -272,7 +277,8 @@ let check (case : Sexp.t) (res : Sexp.t) : [ `Ok | `Mismatch of string | `Proper
   | _, L [ A "panic"; m ] -> (`Property ("panic " ^ atom m), true)
   | L [ A "unify"; _; ca; cb ], L [ A "unify"; ok; pa; pb; st; ctx; L (A "hooks" :: hk) ] ->
     let opened = (match hk with oh :: _ -> int oh | [] -> 0) in
-    let sg = if opened > 0 then " sig=D9-hole-copied-by-open" else "" in
+    let local = (match hk with [ _; _; _; _; lh ] -> int lh | _ -> 0) in
+    let sg = hole_sig ~opened ~local in
     let a = term_of_sexp pa and b = term_of_sexp pb in
     let a0 = term_of_sexp ca and b0 = term_of_sexp cb in
     let store = parse_store st in
